@@ -297,10 +297,35 @@ def option_sets(rng, k):
     return base if k is None else rng.sample(base, k)
 
 
+def empty_containers(ctx, U):
+    """A container without variables is reindexed like any other: the result's span is the new span (variables added to it
+    afterwards have one element per *new* period), the original keeps its own."""
+    from fsic.core import VectorContainer
+    for kind, (labels, make) in U.items():
+        for old_idx, new_idx in (((0, 1, 2), (1, 2, 3, 4)), ((0, 1, 2, 3), (2, 3)), ((0, 1), (3, 4, 5)), ((1, 2), (1, 2))):
+            old_span, new_span = build_span(kind, labels, make, old_idx), build_span(kind, labels, make, new_idx)
+            if old_span is None or new_span is None:
+                continue
+            case = {'cls': 'container', 'span_kind': kind, 'old': list(old_idx), 'new': list(new_idx), 'opts': {}, 'variables': 'none'}
+            ctx.evaluation(('empty-container', kind, old_idx, new_idx), nontrivial=True, sample=case)
+            c = VectorContainer(old_span)
+            try:
+                r = c.reindex(new_span)
+                r.add_variable('Late', 1.5)
+            except Exception as e:
+                ctx.violation('reindex-raises', f'reindex of a container without variables ({kind}) raised {type(e).__name__}: {e}', case)
+                continue
+            ctx.count('reindex_calls')
+            if len(r.span) != len(new_idx) or not all(x == y for x, y in zip(r.span, [labels[i] for i in new_idx])) or len(r.Late) != len(new_idx) or len(c.span) != len(old_idx):
+                ctx.violation('reindex-span', f'reindex of a container without variables ({kind}): result span {list(r.span)}, requested {[labels[i] for i in new_idx]}; a variable added afterwards has {len(r.Late)} elements', case)
+
+
 def run_shard(ctx):
     rng = ctx.rng('c12')
     U = universes()
     C = classes()
+    if ctx.shard == 0:
+        empty_containers(ctx, U)
     maxlen = ctx.pick(3, 4)
     idx = 0
     olds = [p for r in range(0, maxlen + 1) for p in itertools.permutations(range(6), r)]
